@@ -31,7 +31,11 @@ def main():
     if st:
         print("refusing: /repo has uncommitted changes:\n" + st)
         return 2
-    patch = os.path.join(d, "patch.diff")
+    # patch.ported.diff: the same change re-expressed against the current /repo HEAD (the file it
+    # touches was changed by a later fix: commit); patch.diff stays as delivered by its author
+    patch = os.path.join(d, "patch.ported.diff")
+    if not os.path.exists(patch):
+        patch = os.path.join(d, "patch.diff")
     r = sh(["git", "-C", "/repo", "apply", patch])
     if r.returncode != 0:
         print("patch does not apply:\n" + r.stdout)
@@ -58,7 +62,7 @@ def main():
         for f in os.listdir(keep):
             shutil.copy2(os.path.join(keep, f), evdir)
         shutil.rmtree(keep)
-    json.dump({"ran": time.strftime("%Y-%m-%d %H:%M:%S"), "tier": tier, "results": results},
+    json.dump({"ran": time.strftime("%Y-%m-%d %H:%M:%S"), "tier": tier, "patch": os.path.basename(patch), "results": results},
               open(os.path.join(d, "result.json"), "w"), indent=1)
     return 0
 
